@@ -1,9 +1,16 @@
-"""C06 - see DESIGN.md §7. Monitors in doc_checks.py; theorems in coq/theories/properties/C06.v."""
+"""C06 - see DESIGN.md §7. Monitors in doc_checks.py; theorems in coq/theories/properties/C06.v.
+
+The lexical half (coq/theories/TokensStable.v: extent stability of every recogniser, blanks and ", " are
+boundaries, separated printings scan back) is built and audited through properties/C06.v's imports; its
+recognisers are tied to lark / CPython re by `./check C12` (harness/c12.py, continuation_cases)."""
 from harness import common, doc_checks, tree_check
 
 
 def run(ctx: common.Ctx):
     tree_check.setup(ctx, 'C06')
+    ctx.assumptions += ['C06_extent_stable_*/C06_separated_relex are about the recognisers lexr_K of Tokens.v with the kind '
+                        'sequence given (tied to lark and CPython re on lexeme + following text by ./check C12); which terminal '
+                        'lark tries at a position (LALR state, priorities, longest match) is an oracle exercised by the monitor']
     doc_checks.run_c06(ctx)
     doc_checks.run_c06_payee_grid(ctx)
     doc_checks.run_c06_whole_field(ctx)
